@@ -111,6 +111,9 @@ def vecMon (mon : Mon) (id : Nat) (w : List String) (st : String) (a : KV) : Mon
     | "concat" => (mon, l ++ (alGet mon.vecs x).getD [], none)
     | "swap" => (swapOwners { mon with vecs := alSet mon.vecs x l } s!"V{id}" s!"V{x}", (alGet mon.vecs x).getD [], none)
     | "release" => (mon, [], none)
+    | "move_from" | "move_ctor" =>
+      let mon1 := { mon with regions := mon.regions.filter (·.owner != s!"V{id}"), vecs := alSet mon.vecs x [] }
+      (swapOwners mon1 s!"V{id}" s!"V{x}", (alGet mon.vecs x).getD [], none)
     | "index_of" => (mon, l, some (firstIdx l xv))
     | "last_index_of" => (mon, l, some (lastIdx l xv))
     | "contains" => (mon, l, some (if l.contains xv then "1" else "0"))
@@ -152,7 +155,10 @@ def hashMon (mon : Mon) (id : Nat) (w : List String) (st : String) (a : KV) : Mo
       else if present ∧ kv a "removed" != some "1" then (mon, l, some s!"remove {k}: node reachable by get but not by _remove")
       else (mon, l.erase (k, h), none)
     | "swap" => (swapOwners { mon with hashes := alSet mon.hashes k l } s!"H{id}" s!"H{k}", (alGet mon.hashes k).getD [], none)
-    | "release" => (mon, [], none)
+    | "release" | "reset" => (mon, [], none)
+    | "move_from" =>
+      let mon1 := { mon with regions := mon.regions.filter (·.owner != s!"H{id}"), hashes := alSet mon.hashes k [] }
+      (swapOwners mon1 s!"H{id}" s!"H{k}", (alGet mon.hashes k).getD [], none)
     | _ => (mon, l, none)
   let mon := { mon with hashes := alSet mon.hashes id l' }
   match chk with
@@ -419,6 +425,7 @@ def strMon (mon : Mon) (id : Nat) (w : List String) (st : String) (a : KV) : Mon
     | "truncate" => (mon, l.take x, none)
     | "clear" | "reset" => (mon, [], none)
     | "swap" => ({ mon with strs := alSet mon.strs x l }, (alGet mon.strs x).getD [], none)
+    | "move_from" | "move_ctor" => ({ mon with strs := alSet mon.strs x [] }, (alGet mon.strs x).getD [], none)
     | _ => (mon, l, none)
   let mon := { mon with strs := alSet mon.strs id l' }
   match chk with
